@@ -85,7 +85,16 @@ Injective(sq) == \A i, j \in DOMAIN sq : i # j => sq[i] # sq[j]
 FamCase == { Desc("case", "tables", [ i \in DOMAIN ns |-> PlainEntry(ns[i], CasePass[ns[i]]) ], << >>) :
                ns \in { x \in UNION { [1..k -> CaseNames] : k \in 1..3 } : Injective(x) } }
 
-MCFiles == FamUser \cup FamPass \cup FamPairs \cup FamMulti \cup FamPad \cup FamMalformed \cup FamCanary \cup FamWizard \cup FamCase
+(* Pairs whose RFC 7617 token base64(user ":" password) contains the characters + and / (6-bit values 62, 63):
+   "?", ">" and "~" at every offset modulo 3 of the credentials, in the password and in the user name.     *)
+B64Specials == { "qm", "gt", "til" }
+B64User == Str("basic", << "a" >>)
+FamB64 == { Desc("b64", "tables", << PlainEntry(B64User, Str("literal", pre \o << c >>)) >>, << >>) :
+               c \in B64Specials, pre \in { << >>, << "a" >>, << "a", "Z" >> } }
+          \cup { Desc("b64", "tables", << PlainEntry(Str("literal", pre \o << c >>), FixedPass), PlainEntry(B64User, Str("literal", << "qm", "gt", "til" >>)) >>, << >>) :
+               c \in B64Specials, pre \in { << >>, << "a" >>, << "a", "Z" >> } }
+
+MCFiles == FamB64 \cup FamUser \cup FamPass \cup FamPairs \cup FamMulti \cup FamPad \cup FamMalformed \cup FamCanary \cup FamWizard \cup FamCase
 
 --------------------------------------------------------------------------
 (* start-up rows *)
